@@ -1083,7 +1083,12 @@ func (dsc *dataStoreCommand) dictScanUnlocked(data *redisDict, cursor uint32, pa
 	count int,
 	isMatch func(item *redisDictItem) any) (output respValue) {
 	result := make([]any, 2)
-	matches := make([]any, 0, count)
+	// COUNT comes from the client: never more than what the table holds
+	prealloc := count
+	if prealloc > data.count {
+		prealloc = data.count
+	}
+	matches := make([]any, 0, prealloc)
 
 	highBit := uint32(len(data.buckets)) // always a power of 2
 	shift := 32 - bitPosition(highBit)
